@@ -47,7 +47,7 @@ _t(
     kept=["/t1/f"],
 )
 
-# ---------------------------------------------------------------- T3: keeps with constant / default / keyword arguments, run-time argument
+# ---------------------------------------------------------------- T3: keeps with constant / default / keyword arguments;  T4: run-time argument
 _T3 = '''
 G = 0
 
@@ -57,12 +57,19 @@ def g(x, y=5):
     return ("g", x, y, G)
 
 
+def g0(x=0):
+    tick.hit("g0")
+    return ("g0", x, G)
+
+
 def root(n):
     a = dds.keep("/t3/a", g, 1)
     b = dds.keep("/t3/b", g, 2, y=7)
-    z = (n, 1)
-    c = dds.keep("/t3/c", g, z)
-    return (a, b, c)
+    return (a, b)
+
+
+def root0():
+    return dds.keep("/t3/z", g0)
 '''
 _t(
     "T3",
@@ -70,10 +77,32 @@ _t(
         "a": HEAD + _T3,
         "b": HEAD + _T3.replace('dds.keep("/t3/a", g, 1)', 'dds.keep("/t3/a", g, 3)'),  # literal argument edited
         "c": HEAD + _T3.replace('def g(x, y=5):', 'def g(x, y=6):'),  # default edited
+        "d": HEAD + _T3.replace('dds.keep("/t3/b", g, 2, y=7)', 'dds.keep("/t3/b", g, 2, y=8)'),  # keyword argument edited
     })],
     leaves=[("tq.m1", "G", "int", True)],
     entry=("tq.m1", "root"),
-    kept=["/t3/a", "/t3/b", "/t3/c"],
+    kept=["/t3/a", "/t3/b"],
+)
+_T4 = '''
+G = 0
+
+
+def g(x, y=5):
+    tick.hit("g")
+    return ("g", x, y, G)
+
+
+def root(n):
+    z = (n, 1)
+    c = dds.keep("/t4/c", g, z)
+    return ("root", c)
+'''
+_t(
+    "T4",
+    [PKG, ("tq.m1", {"a": HEAD + _T4, "b": HEAD + _T4.replace("z = (n, 1)", "z = (n, 2)")})],
+    leaves=[("tq.m1", "G", "int", True)],
+    entry=("tq.m1", "root"),
+    kept=["/t4/c"],
 )
 
 # ---------------------------------------------------------------- T5: class instantiated by name, variables read in two methods
@@ -378,6 +407,18 @@ def root_d():
     return dds.keep("/t9/rk", reader_k)
 
 
+def reader_k2():
+    tick.hit("reader_k2")
+    return ("rk2", dds.load("/t9/k2"))
+
+
+def root_f():
+    # ONE function kept under two paths, the later one is loaded
+    dds.keep("/t9/k1", g)
+    dds.keep("/t9/k2", g)
+    return dds.keep("/t9/rk2", reader_k2)
+
+
 def root_e():
     # producer ran in an EARLIER evaluation; this evaluation only reads
     return dds.keep("/t9/r", reader)
@@ -461,6 +502,18 @@ def root_defk():
 
 def root_other():
     return dds.keep("/t13/a", g3, 1, 7, "r")
+
+
+def root_kw_other():
+    return dds.keep("/t13/a", g3, 1, 7, z="r")
+
+
+def root_ykw():
+    return dds.keep("/t13/a", g3, 1, y=7)
+
+
+def root_ykw_other():
+    return dds.keep("/t13/a", g3, 1, y=8)
 
 
 def root_swap():
